@@ -60,7 +60,8 @@ def stepBody (m : Model) (p : Params) (s : St) : St :=
   let working := !(p.absence.contains s.time)
   let l1 := absenceSet m s.time working s.live
   let l2 := if working then allocate m s.logs p.rule l1 else l1
-  let l3 := chkWorking m l2
+  -- nothing starts at a project absence step unless automatic tasks are performed there
+  let l3 := if working || p.autoFlag then chkWorking m l2 else l2
   let l4 := compCheck m l3
   let lg1 := cost m working l4 s.logs
   let l5 := perform m working p.autoFlag l4
